@@ -65,6 +65,7 @@ struct Actor
   AState state{AState::Ready};
   unsigned long long wait_stamp{0}; // global step count when it started waiting
   int last_point{0};
+  bool made_progress{true}; // backend: its fingerprint changed since its previous point
   pthread_t th{};
   std::function<void()> body;
 };
@@ -83,6 +84,7 @@ struct Ctl
   std::vector<std::unique_ptr<Actor>> actors;
   std::atomic<int> ctl{0};
   unsigned long long step{0};
+  unsigned long long progress_stamp{0}; // step number of the latest step that ended with the actor not waiting
   std::vector<int> prefix;          // choices to replay
   std::vector<int> prefix_enabled;  // expected number of enabled actors at each replayed point (0 = unknown)
   std::vector<PointRec> trace;
@@ -121,6 +123,14 @@ inline void actor_yield(int point_id, AState st)
 inline void point(int id = 100)
 {
   if (tl_actor && !g_ctl->draining) actor_yield(id, AState::Ready);
+}
+// a frontend thread that stays alive until the end of the execution (its thread-local context stays valid)
+inline void park()
+{
+  if (!tl_actor) return;
+  std::atomic<int> never{0};
+  actor_yield(998, AState::Done);
+  while (true) futex_wait(&never, 0);
 }
 // a retry loop iteration: the actor cannot make progress by itself
 inline void wait_point(int id = 200)
